@@ -141,6 +141,11 @@ func (k msgServer) MsgLiquidateBorrow(c context.Context, msg *types.MsgLiquidate
 	liqThresholdBridgedAssetOne, _ := k.lend.GetAssetRatesParams(ctx, firstTransitAssetID)
 	liqThresholdBridgedAssetTwo, _ := k.lend.GetAssetRatesParams(ctx, secondTransitAssetID)
 	firstBridgedAsset, _ := k.asset.GetAsset(ctx, firstTransitAssetID)
+	// the threshold applicable to an e-mode pair is the e-mode threshold, as in the per-block sweep
+	liquidationThreshold := liqThreshold.LiquidationThreshold
+	if lendPair.IsEModeEnabled {
+		liquidationThreshold = liqThreshold.ELiquidationThreshold
+	}
 	// there are three possible cases
 	// 	a. if borrow is from same pool
 	//  b. if borrow is from first transit asset
@@ -150,7 +155,7 @@ func (k msgServer) MsgLiquidateBorrow(c context.Context, msg *types.MsgLiquidate
 		if err != nil {
 			return nil, err
 		}
-		if sdk.Dec.GT(currentCollateralizationRatio, liqThreshold.LiquidationThreshold) {
+		if sdk.Dec.GT(currentCollateralizationRatio, liquidationThreshold) {
 			// after checking the currentCollateralizationRatio with LiquidationThreshold if borrow is to be liquidated then
 			// CreateLockedBorrow function is called
 			lockedVault, err := k.CreateLockedBorrow(ctx, borrowPos, currentCollateralizationRatio, lendPos.AppID)
@@ -167,7 +172,7 @@ func (k msgServer) MsgLiquidateBorrow(c context.Context, msg *types.MsgLiquidate
 	} else {
 		if borrowPos.BridgedAssetAmount.Denom == firstBridgedAsset.Denom {
 			currentCollateralizationRatio, _ = k.lend.CalculateCollateralizationRatio(ctx, borrowPos.AmountIn.Amount, assetIn, borrowPos.AmountOut.Amount.Add(borrowPos.InterestAccumulated.TruncateInt()), assetOut)
-			if sdk.Dec.GT(currentCollateralizationRatio, liqThreshold.LiquidationThreshold.Mul(liqThresholdBridgedAssetOne.LiquidationThreshold)) {
+			if sdk.Dec.GT(currentCollateralizationRatio, liquidationThreshold.Mul(liqThresholdBridgedAssetOne.LiquidationThreshold)) {
 				lockedVault, err := k.CreateLockedBorrow(ctx, borrowPos, currentCollateralizationRatio, lendPos.AppID)
 				if err != nil {
 					return nil, err
@@ -182,7 +187,7 @@ func (k msgServer) MsgLiquidateBorrow(c context.Context, msg *types.MsgLiquidate
 		} else {
 			currentCollateralizationRatio, _ = k.lend.CalculateCollateralizationRatio(ctx, borrowPos.AmountIn.Amount, assetIn, borrowPos.AmountOut.Amount.Add(borrowPos.InterestAccumulated.TruncateInt()), assetOut)
 
-			if sdk.Dec.GT(currentCollateralizationRatio, liqThreshold.LiquidationThreshold.Mul(liqThresholdBridgedAssetTwo.LiquidationThreshold)) {
+			if sdk.Dec.GT(currentCollateralizationRatio, liquidationThreshold.Mul(liqThresholdBridgedAssetTwo.LiquidationThreshold)) {
 				lockedVault, err := k.CreateLockedBorrow(ctx, borrowPos, currentCollateralizationRatio, lendPos.AppID)
 				if err != nil {
 					return nil, err
